@@ -733,7 +733,7 @@ Proof.
                split; auto. apply nth_error_Some; congruence.
              - apply (Hlast i0 (HInv t o')); auto. }
            subst i0. exists a; auto.
-        -- apply (lin_complete L).
+        -- apply (lin_complete L (i:=i0) (j:=j) (r:=r0)).
            apply completed_snoc_inv with (e := HRes t r); auto; lia.
       * apply (lin_legal L).
       * intros i0 j r0 b C Hb Hlt. pose proof (Hbound b Hb).
@@ -766,7 +766,7 @@ Qed.
 Theorem lp_valid_linearizable (tr : list (aev Sp)) :
   lp_valid Sp tr -> linearizable Sp (erase tr).
 Proof.
-  intros (c & H). destruct (lp_run_inv tr H) as (lin & I).
+  intros (c & H). destruct (lp_run_inv tr c H) as (lin & I).
   exists lin; apply (li_lin I).
 Qed.
 
@@ -822,3 +822,255 @@ Proof.
 Qed.
 
 End Proofs.
+
+(** ** Corollaries for FIFO queues
+
+    In the words of the property: "no item is invented" and "each enqueued item is
+    dequeued at most once" (the third clause, "dequeue reports empty only if the queue was
+    empty at some instant during the call", is [fifo_empty_was_empty]). *)
+
+Section FifoFacts.
+Local Open Scope Z_scope.
+
+(** [v] is the argument of some enqueue invoked in [h]. *)
+Definition enqueued (h : history Fifo) (v : Z) : Prop :=
+  exists i t, nth_error h i = Some (@HInv Fifo t (Enq v)).
+
+(** the dequeue invoked at position [i] of [h] returned [r] *)
+Definition deq_returns (h : history Fifo) (i : nat) (r : option Z) : Prop :=
+  exists t j, nth_error h i = Some (@HInv Fifo t Deq) /\ completed h i j (RVal r).
+
+(** all enqueue invocations of [h] carry different values *)
+Definition distinct_enqueues (h : history Fifo) : Prop :=
+  forall i1 i2 t1 t2 v,
+    nth_error h i1 = Some (@HInv Fifo t1 (Enq v)) ->
+    nth_error h i2 = Some (@HInv Fifo t2 (Enq v)) -> i1 = i2.
+
+Fixpoint enq_vals (l : list (qop * res)) : list Z :=
+  match l with
+  | [] => []
+  | (Enq v, _) :: l' => v :: enq_vals l'
+  | _ :: l' => enq_vals l'
+  end.
+
+Fixpoint deq_vals (l : list (qop * res)) : list Z :=
+  match l with
+  | [] => []
+  | (Deq, RVal (Some v)) :: l' => v :: deq_vals l'
+  | _ :: l' => deq_vals l'
+  end.
+
+(** Sequential FIFO facts: whatever is dequeued was in the queue or enqueued, and if those
+    are pairwise distinct nothing is dequeued twice. *)
+Lemma fifo_seq : forall l q,
+  @legal Fifo q l ->
+  (forall v, In v (deq_vals l) -> In v (q ++ enq_vals l)) /\
+  (NoDup (q ++ enq_vals l) -> NoDup (deq_vals l)).
+Proof.
+  induction l as [|[[x|] r] l IH]; intros q Hl; simpl in Hl.
+  - simpl; split; [easy|constructor].
+  - destruct Hl as [_ Hl]. apply IH in Hl; destruct Hl as [H1 H2].
+    rewrite <- app_assoc in H1, H2; simpl in *. auto.
+  - destruct q as [|y q]; simpl in Hl; destruct Hl as [<- Hl];
+      apply IH in Hl; destruct Hl as [H1 H2]; simpl in *; auto.
+    split.
+    + intros v [->|Hv]; auto.
+    + intros ND; inversion ND as [|? ? Hn ND']; subst. constructor; auto.
+Qed.
+
+Notation fseq lin := (map (fun a : lop Fifo => (l_op a, l_res a)) lin).
+
+Lemma in_enq_vals (lin : list (lop Fifo)) v :
+  In v (enq_vals (fseq lin)) -> exists a, In a lin /\ l_op a = Enq v.
+Proof.
+  induction lin as [|a lin IH]; simpl; [easy|].
+  destruct (l_op a) as [x|] eqn:E; simpl.
+  - intros [<-|H]; [exists a; auto|]. destruct (IH H) as (b & Hb & Eb); exists b; auto.
+  - intros H. destruct (IH H) as (b & Hb & Eb); exists b; auto.
+Qed.
+
+Lemma in_deq_vals lin (a : lop Fifo) v :
+  In a lin -> l_op a = Deq -> l_res a = RVal (Some v) -> In v (deq_vals (fseq lin)).
+Proof.
+  induction lin as [|b lin IH]; simpl; [easy|].
+  intros [->|Ha] Eo Er.
+  - rewrite Eo, Er; simpl; auto.
+  - specialize (IH Ha Eo Er). destruct (l_op b); auto. destruct (l_res b) as [| |[w|]|]; simpl; auto.
+Qed.
+
+Lemma deq_vals_tail (b : lop Fifo) lin :
+  NoDup (deq_vals (fseq (b :: lin))) -> NoDup (deq_vals (fseq lin)).
+Proof.
+  simpl. destruct (l_op b); auto. destruct (l_res b) as [| |[w|]|]; auto.
+  intros ND; now inversion ND.
+Qed.
+
+Lemma deq_vals_unique lin : forall (a1 a2 : lop Fifo) v,
+  In a1 lin -> In a2 lin ->
+  l_op a1 = Deq -> l_res a1 = RVal (Some v) ->
+  l_op a2 = Deq -> l_res a2 = RVal (Some v) ->
+  NoDup (deq_vals (fseq lin)) -> a1 = a2.
+Proof.
+  induction lin as [|b lin IH]; intros a1 a2 v H1 H2 O1 R1 O2 R2 ND; [easy|].
+  destruct H1 as [->|H1], H2 as [->|H2]; auto.
+  - exfalso. simpl in ND; rewrite O1, R1 in ND. inversion ND as [|? ? Hn _]; subst.
+    apply Hn. eapply in_deq_vals; eauto.
+  - exfalso. simpl in ND; rewrite O2, R2 in ND. inversion ND as [|? ? Hn _]; subst.
+    apply Hn. eapply in_deq_vals; eauto.
+  - apply deq_vals_tail in ND. eapply IH; eauto.
+Qed.
+
+Lemma enq_vals_nodup (lin : list (lop Fifo)) :
+  (forall a1 a2 v, In a1 lin -> In a2 lin -> l_op a1 = Enq v -> l_op a2 = Enq v ->
+                   l_inv a1 = l_inv a2) ->
+  NoDup (map l_inv lin) -> NoDup (enq_vals (fseq lin)).
+Proof.
+  induction lin as [|a lin IH]; simpl; intros D ND; [constructor|].
+  inversion ND as [|? ? Hn ND']; subst.
+  assert (IH' : NoDup (enq_vals (fseq lin)))
+    by (apply IH; [intros a1 a2 v H1 H2; apply D; auto|auto]).
+  destruct (l_op a) as [x|] eqn:E; auto.
+  constructor; auto.
+  intros Hin; apply in_enq_vals in Hin; destruct Hin as (b & Hb & Eb).
+  apply Hn. rewrite (D a b x); auto. now apply in_map.
+Qed.
+
+(** From a dequeue of [h] to its entry in a linearization. *)
+Lemma deq_in_lin h lin i r :
+  linearization Fifo h lin -> deq_returns h i r ->
+  exists a, In a lin /\ l_inv a = i /\ l_op a = Deq /\ l_res a = RVal r.
+Proof.
+  intros L (t & j & Hi & C).
+  destruct (lin_complete L C) as (a & Ha & Ei & Er).
+  exists a; repeat split; auto.
+  pose proof (lin_ops L a Ha) as Hn. rewrite Ei, Hi in Hn. congruence.
+Qed.
+
+Theorem fifo_no_invention (h : history Fifo) :
+  linearizable Fifo h ->
+  forall i v, deq_returns h i (Some v) -> enqueued h v.
+Proof.
+  intros (lin & L) i v D.
+  destruct (deq_in_lin _ _ _ _ L D) as (a & Ha & _ & Eo & Er).
+  destruct (fifo_seq (fseq lin) [] (lin_legal L)) as [H _].
+  specialize (H v (in_deq_vals lin a v Ha Eo Er)); simpl in H.
+  apply in_enq_vals in H; destruct H as (b & Hb & Eb).
+  exists (l_inv b), (l_tid b). rewrite <- Eb. apply (lin_ops L b Hb).
+Qed.
+
+Theorem fifo_at_most_once (h : history Fifo) :
+  linearizable Fifo h -> distinct_enqueues h ->
+  forall i1 i2 v, deq_returns h i1 (Some v) -> deq_returns h i2 (Some v) -> i1 = i2.
+Proof.
+  intros (lin & L) Dist i1 i2 v D1 D2.
+  destruct (deq_in_lin _ _ _ _ L D1) as (a1 & Ha1 & E1 & Eo1 & Er1).
+  destruct (deq_in_lin _ _ _ _ L D2) as (a2 & Ha2 & E2 & Eo2 & Er2).
+  destruct (fifo_seq (fseq lin) [] (lin_legal L)) as [_ H]; simpl in H.
+  assert (a1 = a2); [|congruence].
+  apply (deq_vals_unique lin a1 a2 v); auto.
+  apply H, enq_vals_nodup; [|apply (lin_nodup L)].
+  intros b1 b2 x Hb1 Hb2 Eb1 Eb2.
+  pose proof (lin_ops L b1 Hb1) as N1. pose proof (lin_ops L b2 Hb2) as N2.
+  rewrite Eb1 in N1; rewrite Eb2 in N2. eapply Dist; eauto.
+Qed.
+
+(** "dequeue reports empty only if the queue was empty at some instant during the call":
+    in the linearization the empty dequeue is applied to the empty queue; that instant
+    lies within the call because the linearization respects real time. *)
+Theorem fifo_empty_was_empty (h : history Fifo) lin i :
+  linearization Fifo h lin -> deq_returns h i None ->
+  exists l1 a l2, lin = l1 ++ a :: l2 /\ l_inv a = i /\ @final Fifo (sinit Fifo) (fseq l1) = [].
+Proof.
+  intros L D. destruct (deq_in_lin _ _ _ _ L D) as (a & Ha & Ei & Eo & Er).
+  apply in_split in Ha; destruct Ha as (l1 & l2 & ->).
+  exists l1, a, l2; repeat split; auto.
+  pose proof (lin_legal L) as Hl. rewrite map_app in Hl. apply legal_app in Hl.
+  destruct Hl as [_ Hl].
+  remember (@final Fifo (sinit Fifo) (fseq l1)) as q eqn:Eq. clear Eq.
+  simpl in Hl. rewrite Eo, Er in Hl. destruct Hl as [Hl _].
+  destruct q; simpl in Hl; auto; discriminate.
+Qed.
+
+End FifoFacts.
+
+(** ** Examples (also the non-vacuity witnesses of the theorems above) *)
+
+Section Examples.
+Local Open Scope Z_scope.
+Let inv := @HInv Fifo.
+Let ret := @HRes Fifo.
+
+(** Sequential enq 1; enq 2; then a dequeue returns 2: not FIFO. *)
+Definition h_bad : history Fifo :=
+  [inv 0%nat (Enq 1); ret 0%nat (RBool true);
+   inv 1%nat (Enq 2); ret 1%nat (RBool true);
+   inv 0%nat Deq;     ret 0%nat (RVal (Some 2))].
+
+(** The two enqueues overlap, so either order is possible; the overlapping dequeues see 2 then 1. *)
+Definition h_good : history Fifo :=
+  [inv 0%nat (Enq 1); inv 1%nat (Enq 2); ret 0%nat (RBool true); ret 1%nat (RBool true);
+   inv 0%nat Deq; inv 1%nat Deq; ret 0%nat (RVal (Some 2)); ret 1%nat (RVal (Some 1))].
+
+Example lincheck_bad : lincheck Fifo h_bad = false.
+Proof. vm_compute. reflexivity. Qed.
+
+Example lincheck_good : lincheck Fifo h_good = true.
+Proof. vm_compute. reflexivity. Qed.
+
+Example h_bad_wf : wf_history h_bad.
+Proof. apply wf_historyb_spec. vm_compute. reflexivity. Qed.
+
+(** By completeness, the [false] verdict is a proof of non-linearizability. *)
+Example h_bad_not_linearizable : ~ linearizable Fifo h_bad.
+Proof.
+  intros L. apply (lincheck_complete h_bad h_bad_wf) in L.
+  rewrite lincheck_bad in L. discriminate.
+Qed.
+
+Example h_good_linearizable : wf_history h_good /\ linearizable Fifo h_good.
+Proof. apply lincheck_iff. exact lincheck_good. Qed.
+
+Example h_good_distinct : distinct_enqueues h_good.
+Proof.
+  intros i1 i2 t1 t2 v H1 H2. unfold h_good, inv, ret in *.
+  destruct i1 as [|[|[|[|[|[|[|[|i1]]]]]]]]; simpl in H1; try discriminate;
+    try (destruct i1; discriminate);
+  destruct i2 as [|[|[|[|[|[|[|[|i2]]]]]]]]; simpl in H2; try discriminate;
+    try (destruct i2; discriminate);
+  congruence.
+Qed.
+
+Example h_good_deq : deq_returns h_good 4 (Some 2).
+Proof.
+  exists 0%nat, 6%nat. split; [reflexivity|].
+  exists 0%nat, Deq. repeat split; auto.
+  intros k e Hk Hn. assert (k = 5%nat) by lia; subst k.
+  injection Hn as <-. discriminate.
+Qed.
+
+(** An annotated trace of the same history: both enqueues and dequeues overlap, the
+    linearization points put enq 2 before enq 1. *)
+Definition tr_good : list (aev Fifo) :=
+  [@AInv Fifo 0%nat (Enq 1); @AInv Fifo 1%nat (Enq 2); @ALin Fifo 1%nat; @ALin Fifo 0%nat;
+   @ARes Fifo 0%nat (RBool true); @ARes Fifo 1%nat (RBool true);
+   @AInv Fifo 0%nat Deq; @AInv Fifo 1%nat Deq; @ALin Fifo 0%nat; @ARes Fifo 0%nat (RVal (Some 2));
+   @ALin Fifo 1%nat; @ARes Fifo 1%nat (RVal (Some 1))].
+
+Example tr_good_valid : lp_valid Fifo tr_good /\ erase tr_good = h_good.
+Proof. split; [apply lp_validb_spec; vm_compute|]; reflexivity. Qed.
+
+End Examples.
+
+(** ** Axiom audit *)
+
+Print Assumptions lincheck_sound.
+Print Assumptions lincheck_complete.
+Print Assumptions lincheck_iff.
+Print Assumptions lp_valid_linearizable.
+Print Assumptions lp_valid_wf.
+Print Assumptions wf_historyb_spec.
+Print Assumptions search_fuel_enough.
+Print Assumptions fifo_no_invention.
+Print Assumptions fifo_at_most_once.
+Print Assumptions fifo_empty_was_empty.
+Print Assumptions h_bad_not_linearizable.
